@@ -9,7 +9,8 @@ SPEC = {
     "skip_model_prefix": ["par"],
     "rule": ("seq/strict/fine cases: one history of registry/session operations (AcceptConnection, Handshake packets through "
              "HandlePacket with a gated auth-handler double, KickOldControlConnection, cleanupStaleConnections, ageing, "
-             "Heartbeat packets, CloseConnection, RemoveControlConnection, Unregister, tunnel registration, peer break) run on "
+             "Heartbeat packets, CloseConnection, RemoveControlConnection, Unregister, tunnel registration, peer break; the sweep, "
+             "heartbeat, CloseConnection and RemoveControlConnection also under a cloud-control store fault: XF/RF/SF/BF) run on "
              "the real SessionManager with fake transports; the snapshot (lookup by every client id and connection id, "
              "ListAuthenticated, Count, GetConnectionStats, GetActiveChannels, closed flags) is compared with the model and "
              "judged by the theorem's predicate. Exhaustive: all symmetry-reduced sequences over 3 connections x 2 clients "
@@ -26,7 +27,8 @@ SPEC = {
         "`if`/`range` headers (guards) of the registry functions as source text (all pinned by decide)",
         "differential harness /verif/harness/c07: fake net.Conn transports (closed/broken flags), auth-handler double that does "
         "exactly ServerAuthHandler's two field writes (SetClientID, SetAuthenticated) and then waits at a gate; shims "
-        "VerifCleanupStale, VerifUnregister, VerifListAuthenticated, VerifControlCount, VerifHasTunnelConn, VerifKickWithHook",
+        "VerifCleanupStale, VerifUnregister, VerifListAuthenticated, VerifControlCount, VerifHasTunnelConn, VerifKickWithHook; "
+        "CloudControlAPI double whose DisconnectClientIfMatch/DisconnectClient/EnsureClientOnline fail while a fault op runs",
         "each registry method holds ClientRegistry.mu for its whole body (Lock/Unlock positions are part of the pinned skeletons)",
     ],
     "assumptions": [
@@ -40,7 +42,8 @@ SPEC = {
         "concurrent blocks the packets and the teardown of a connection stay in one block",
         "not driven: Register replacing an existing connection id and Register of a pre-authenticated connection "
         "(packet_handler_tunnel_ops temp connection), direct UpdateControlConnectionAuth (no caller besides handleHandshake), "
-        "cloudControl/connStateStore side effects (nil in the harness; C08), SessionManager shutdown (C16)",
+        "connStateStore side effects (nil in the harness; C08), the contents of the cloud-control state (C08; the harness "
+        "configures a cloud-control double that only answers ok / error), SessionManager shutdown (C16)",
         "'its transport is closed' is the server-side Close of the fake transport; a peer-side break is an input (op P)",
         "a panic inside StreamProcessor (onClose clears ps.writer without the write lock while WritePacket runs; belongs to "
         "C16/C05, reported) can occur in concurrent blocks: such a run is repeated and counted in "
